@@ -37,8 +37,8 @@ DefVal(d) ==
     [] d.j = "i" -> [p |-> "int", neg |-> d.neg, mag |-> d.mag]
     [] d.j = "f" -> [p |-> "float", sgn |-> d.sgn, exp |-> d.exp, man |-> d.man]
     [] d.j = "s" -> VStr(d.cp)
-    [] d.j = "a" -> VList([i \in 1..Len(d.it) |-> DefVal(d.it[i])])
-    [] d.j = "o" -> VDict([i \in 1..Len(d.ks) |-> VStr(d.ks[i])], [i \in 1..Len(d.vs) |-> DefVal(d.vs[i])])
+    [] d.j = "a" -> VList(MapSeq(DefVal, d.it))
+    [] d.j = "o" -> VDict(MapSeq(VStr, d.ks), MapSeq(DefVal, d.vs))
 
 \* ---- equality of values: dicts as mappings, NaN equal to NaN, everything else strict ---
 RECURSIVE VEq(_, _)
@@ -105,15 +105,17 @@ ChooseBranch(brs, v, names, o) ==
      IF hits = {} THEN [st |-> "raise"]
      ELSE LET i == CHOOSE x \in hits : \A y \in hits : x <= y IN
           IF Conf(brs[i], v.it[2], names, o, TRUE) THEN [st |-> "ok", i |-> i, v |-> v.it[2]]
-          ELSE [st |-> "unspec"]                      \* a hinted branch the value does not conform to: outside the domain
-  ELSE IF o.tuples /\ v.p = "tuple" THEN [st |-> "unspec"]   \* a tuple that is not a (name, value) pair
+          ELSE [st |-> "unspec", why |-> "hint-nonconf"]   \* a hinted branch the value does not conform to: outside the domain
+  ELSE IF o.tuples /\ v.p = "tuple" THEN [st |-> "unspec", why |-> "tuple"]   \* a tuple that is not a (name, value) pair
+  ELSE IF v.p \in {"bytes", "bytearray"} /\ \E i \in 1..Len(brs) : Deref(brs[i], names).k = "array"
+       THEN [st |-> "unspec", why |-> "bytes-array"]     \* Python's Sequence ABC makes b"ab" look like [97, 98] (DESIGN D.2)
   ELSE
      LET conf == { i \in 1..Len(brs) : Conf(brs[i], v, names, o, TRUE) }
          RC == { i \in conf : Deref(brs[i], names).k = "record" }
          NR == conf \ RC
          minOf(S) == CHOOSE x \in S : \A y \in S : x <= y
      IN IF conf = {} THEN [st |-> "raise"]
-        ELSE IF RC # {} /\ NR # {} THEN [st |-> "unspec"]
+        ELSE IF RC # {} /\ NR # {} THEN [st |-> "unspec", why |-> "record-and-other"]
         ELSE IF RC # {} THEN
              LET best == CHOOSE x \in RC : \A y \in RC :
                             \/ Overlap(Deref(brs[x], names), v) > Overlap(Deref(brs[y], names), v)
@@ -128,8 +130,8 @@ ChooseBranch(brs, v, names, o) ==
 \* [ok |-> TRUE, v] | [ok |-> FALSE]  (FALSE: outside the domain, e.g. unspecified union choice, float overflow)
 RECURSIVE Norm(_, _, _, _)
 NormSeq(t, xs, names, o) ==
-  LET rs == [i \in 1..Len(xs) |-> Norm(t, xs[i], names, o)] IN
-  IF \A i \in 1..Len(xs) : rs[i].ok THEN [ok |-> TRUE, vs |-> [i \in 1..Len(xs) |-> rs[i].v]] ELSE [ok |-> FALSE]
+  LET rs == MapSeq(LAMBDA x : Norm(t, x, names, o), xs) IN
+  IF \A i \in 1..Len(xs) : rs[i].ok THEN [ok |-> TRUE, vs |-> MapSeq(LAMBDA r : r.v, rs)] ELSE [ok |-> FALSE]
 FieldSrc(f, v) == IF HasKey(v, f.name) THEN ValAt(v, f.name) ELSE IF f.hasdef THEN DefVal(f.def) ELSE VNone
 ToDouble(v) == IF v.p = "int" THEN IntToDouble(IOf(v)) ELSE [ok |-> TRUE, f |-> FOf(v)]
 Norm(t0, v0, names, o) ==
@@ -148,9 +150,9 @@ Norm(t0, v0, names, o) ==
     [] t.k = "array" -> LET r == NormSeq(t.items, v.it, names, o) IN IF r.ok THEN ok(VList(r.vs)) ELSE bad
     [] t.k = "map" -> LET r == NormSeq(t.values, v.vs, names, o) IN IF r.ok THEN ok(VDict(v.ks, r.vs)) ELSE bad
     [] t.k = "record" ->
-         LET rs == [i \in 1..Len(t.fields) |-> Norm(t.fields[i].type, FieldSrc(t.fields[i], v), names, o)] IN
+         LET rs == MapSeq(LAMBDA f : Norm(f.type, FieldSrc(f, v), names, o), t.fields) IN
          IF \A i \in 1..Len(t.fields) : rs[i].ok
-         THEN ok(VDict([i \in 1..Len(t.fields) |-> VStr(t.fields[i].name)], [i \in 1..Len(t.fields) |-> rs[i].v]))
+         THEN ok(VDict(MapSeq(LAMBDA f : VStr(f.name), t.fields), MapSeq(LAMBDA r : r.v, rs)))
          ELSE bad
     [] t.k = "union" -> LET c == ChooseBranch(t.br, v, names, o) IN
                         IF c.st = "ok" THEN Norm(t.br[c.i], c.v, names, o) ELSE bad
